@@ -13,6 +13,7 @@ import (
 	"sort"
 	"strconv"
 	"strings"
+	"sync"
 
 	"github.com/bytemare/secp256k1"
 )
@@ -114,9 +115,67 @@ type M struct {
 	seen             map[string]string
 }
 
+// The accessors read and write the fields x, y, z (elements) and S (scalars) ASSUMING what they hold on the pinned
+// tree: homogeneous projective coordinates and a residue, all in Montgomery form.  A refactoring may keep the field
+// names and change their meaning (Jacobian coordinates, plain limbs): the assumption is therefore tested once per
+// process on known values, and where it fails the accessor counts as unavailable -- values are then put in and
+// observed through the public API only.
+var (
+	calibrateOnce sync.Once
+	rawOK         bool // element accessor builds AND means (X : Y : Z) homogeneous, Montgomery form
+	rawScalarOK   bool // scalar accessor builds AND means the Montgomery form of the residue
+)
+
+func calibrateAccessors() {
+	calibrateOnce.Do(func() {
+		if secp256k1.VerifAccessor {
+			ok := true
+			gx, gy := new(big.Int).SetBytes(secp256k1BaseEncoding()[1:]), curveY(new(big.Int).SetBytes(secp256k1BaseEncoding()[1:]))
+			if gy != nil && gy.Bit(0) != uint(secp256k1BaseEncoding()[0]&1) {
+				gy = new(big.Int).Sub(bigP, gy)
+			}
+			want := secp256k1.Base().Encode()
+			for _, l := range []*big.Int{big.NewInt(1), big.NewInt(2), new(big.Int).Sub(bigP, big.NewInt(12345))} {
+				e := secp256k1.NewElement()
+				x, y, z := secp256k1.VerifLimbs(e)
+				*x, *y, *z = montLimbs(mulmod(gx, l, bigP), bigP), montLimbs(mulmod(gy, l, bigP), bigP), montLimbs(l, bigP)
+				if panicked, _ := catch(func() { ok = ok && string(e.Encode()) == string(want) && e.Equal(secp256k1.Base()) == 1 }); panicked {
+					ok = false
+				}
+			}
+			// and reading: the coordinates of 2G + G must be those of a representation of 3G
+			t := secp256k1.Base().Double().Add(secp256k1.Base())
+			x, y, z := secp256k1.VerifLimbs(t)
+			zv := mulmod(limbsToBig(*z), rInvP, bigP)
+			enc := t.EncodeUncompressed()
+			if zv.Sign() == 0 || len(enc) != 65 {
+				ok = false
+			} else {
+				ax, ay := new(big.Int).SetBytes(enc[1:33]), new(big.Int).SetBytes(enc[33:])
+				ok = ok && mulmod(ax, zv, bigP).Cmp(mulmod(limbsToBig(*x), rInvP, bigP)) == 0 &&
+					mulmod(ay, zv, bigP).Cmp(mulmod(limbsToBig(*y), rInvP, bigP)) == 0
+			}
+			rawOK = ok
+		}
+		if secp256k1.VerifScalarAccessor {
+			ok := true
+			for _, v := range []*big.Int{big.NewInt(1), big.NewInt(0xabcdef), new(big.Int).Sub(bigN, big.NewInt(77))} {
+				s := secp256k1.NewScalar()
+				*secp256k1.VerifScalarLimbs(s) = montLimbs(v, bigN)
+				ok = ok && string(s.Encode()) == string(be32(v))
+				t := secp256k1.NewScalar()
+				_ = t.Decode(be32(v))
+				ok = ok && *secp256k1.VerifScalarLimbs(t) == montLimbs(v, bigN)
+			}
+			rawScalarOK = ok
+		}
+	})
+}
+
 func newMachine(dir, prop string, seed int64, ne, ns int) *M {
+	calibrateAccessors()
 	m := &M{rng: rand.New(rand.NewSource(seed)), classes: map[string]int{}, rootMemo: map[string][2]any{},
-		prop: prop, dir: dir, perFile: 1 << 30, raw: secp256k1.VerifAccessor, giantMax: 2,
+		prop: prop, dir: dir, perFile: 1 << 30, raw: rawOK, giantMax: 2,
 		aux: rand.New(rand.NewSource(seed*7919 + 17))}
 	learnScalarErrors()
 	m.E = make([]*secp256k1.Element, ne)
@@ -188,7 +247,7 @@ func (m *M) obs() []kv {
 		enc := e.Encode()
 		w, sq := m.witnessFor(enc)
 		es[i] = []kv{{"enc", enc}, {"id", e.IsIdentity()}, {"y", w}, {"sq", sq}}
-		if secp256k1.VerifAccessor {
+		if rawOK {
 			// the stored coordinates themselves, and (untrusted) what they are the coordinates of
 			xl, yl, zl := secp256k1.VerifLimbs(e)
 			sx, sy, sz := limbsToBig(*xl), limbsToBig(*yl), limbsToBig(*zl)
@@ -218,7 +277,7 @@ func (m *M) obs() []kv {
 			}
 		}
 	}
-	if secp256k1.VerifScalarAccessor { // the stored limbs themselves: the value is theirs, whatever Encode says
+	if rawScalarOK { // the stored limbs themselves: the value is theirs, whatever Encode says
 		sl := make([]any, len(m.S))
 		for i, s := range m.S {
 			sl[i] = be32(limbsToBig(*secp256k1.VerifScalarLimbs(s)))
@@ -312,7 +371,7 @@ func (m *M) summary() string {
 // setScalar stores the canonical integer v < n in s: by writing its Montgomery limbs when the scalar accessor is
 // available (no decoder involved), through Decode otherwise.
 func setScalar(s *secp256k1.Scalar, v *big.Int) {
-	if secp256k1.VerifScalarAccessor {
+	if rawScalarOK {
 		*secp256k1.VerifScalarLimbs(s) = montLimbs(v, bigN)
 		return
 	}
